@@ -378,6 +378,30 @@ Fixpoint cycle_starts_f (F : facts) (s : Z) (cs : list cyc_lat) (period : Z) : l
 Fixpoint end_start_f (F : facts) (s : Z) (cs : list cyc_lat) (period : Z) : Z :=
   match cs with [] => s | c :: r => end_start_f F (next_start_f F s c period) r period end.
 
+(* the backend operations of one complete, fault-free heartbeat iteration, as the shim sees them on the heartbeat
+   file: WriteToFile's statements in order, its deferred close at the return, then heartBeat's Chtimes.  The holder
+   machine has exactly one latency slot for the open, one for the write (with the closes) and one for the stamp:
+   any further blocking operation between `now` and the stamp (a Sync, a Stat, a second write) is outside it. *)
+Definition wstmt_ops (w : wstmt) : list bopk :=
+  match w with WOpen => [BOpenFile] | WCopy => [BWrite] | WSync => [BSync] | WClose => [BClose] | WDeferClose => [] end.
+Definition iter_ops_f (F : facts) : list bopk :=
+  flat_map wstmt_ops (f_wtf_ops F) ++
+  flat_map (fun w => match w with WDeferClose => [BClose] | _ => [] end) (f_wtf_ops F) ++ [BChtimes].
+Definition iter_ops : list bopk := [BOpenFile; BWrite; BClose; BClose; BChtimes].
+
+Definition bopk_eqb (a b : bopk) : bool :=
+  match a, b with
+  | BOpenFile, BOpenFile | BWrite, BWrite | BClose, BClose | BChtimes, BChtimes | BSync, BSync | BStat, BStat
+  | BOther, BOther => true
+  | _, _ => false
+  end.
+Fixpoint bopks_eqb (a b : list bopk) : bool :=
+  match a, b with
+  | [], [] => true
+  | x :: xs, y :: ys => bopk_eqb x y && bopks_eqb xs ys
+  | _, _ => false
+  end.
+
 Definition stopped_f (F : facts) (cs : list cyc_lat) : bool := existsb (fun c => negb (goes_on F c)) cs.
 
 Definition holder_trace_f (F : facts) (t0 : Z) (a : acq_lat) (cs : list cyc_lat) (period : Z) : list ev :=
@@ -441,10 +465,13 @@ Inductive case :=
 (* the recorded operations of a real holder are those of the holder machine run with the measured latencies *)
 (* [calls]: the API calls made on the lock during the hold, in chronological order.  If one of them ends the loop
    ([loop_end]) at most ONE iteration (whose context check had already passed) starts after it.
+   [shapes]: the distinct sequences of backend operation kinds that the holder's complete fault-free iterations
+   issued on the heartbeat file, as recorded by the shim: each must be the model's [iter_ops_f].
    [alive_until]: an instant up to which the process was demonstrably responsive (reference sleeper): as long as
    nothing has ended the loop it never ends by itself (errors of its writes are ignored, other calls do not touch
    it), so the next iteration is due at [end_start]; more than 10 periods of silence are not a run of the machine *)
-| CHolder (period : Z) (t0 : Z) (a : acq_lat) (cs : list cyc_lat) (k : nat) (observed : list ev) (calls : list api_call) (alive_until : option Z).
+| CHolder (period : Z) (t0 : Z) (a : acq_lat) (cs : list cyc_lat) (k : nat) (observed : list ev) (calls : list api_call) (alive_until : option Z)
+          (shapes : list (list bopk)).
 
 Definition check_case_f (F : facts) (c : case) : bool :=
   match c with
@@ -462,7 +489,8 @@ Definition check_case_f (F : facts) (c : case) : bool :=
       (* the answer is monotone: later landing, earlier reading, later evaluation => staler *)
       if got then is_stale_na_f F late l1 l2 h3 p       (* the stalest reading consistent with the record must be stale *)
       else negb (is_stale_na_f F early h1 h2 l3 p)      (* the freshest one must not be *)
-  | CHolder p t0 a cs k observed calls alive_until =>
+  | CHolder p t0 a cs k observed calls alive_until shapes =>
+      forallb (fun sh => bopks_eqb sh (iter_ops_f F)) shapes &&
       acq_nonneg a && forallb cyc_nonneg cs && evs_eqb (dead_after k (holder_trace_f F t0 a cs p)) observed
       && match loop_end_f F calls with
          | None => true
@@ -480,7 +508,7 @@ Definition check_case_f (F : facts) (c : case) : bool :=
 
 (* the correspondence is evaluated on the GENERATED instance; the period the harness assumes must be the code's *)
 Definition case_period (c : case) : Z :=
-  match c with CView p _ _ _ _ => p | COp p _ _ _ _ _ _ => p | CTrace p _ _ _ _ _ _ _ _ _ => p | CHolder p _ _ _ _ _ _ _ => p end.
+  match c with CView p _ _ _ _ => p | COp p _ _ _ _ _ _ => p | CTrace p _ _ _ _ _ _ _ _ _ => p | CHolder p _ _ _ _ _ _ _ _ => p end.
 
 Definition check_case (c : case) : bool :=
   (case_period c =? f_period_ns gen_facts) && check_case_f gen_facts c.
